@@ -159,6 +159,61 @@ def run(ctx):
         ctx.oracle_fail("HoppingParams.resolve selects a channel other than MA[MAI] of 45.002", bad, key="c07-python-deviates")
     ctx.evaluations += cnt
     ctx.extra["py_reduced_domain_cases"] = cnt
+    # ---- the simulator's USE of the generator: what a transceiver tunes to per frame after sequences of SETFH / POWEROFF commands
+    #      (transceiver.py enable_fh / disable_fh / get_rx_freq / get_tx_freq on the real objects of a session)
+    from ..session import Session
+    from .. import session_wire as W
+    nseq = 40 if ctx.tier == "quick" else 800
+    nq = 0
+    for si in range(nseq):
+        s = Session()
+        try:
+            t = s.trxs[rng.below(2)]
+            i = s.trxs.index(t)
+            fixed = (rng.choice(W.FREQS), rng.choice(W.FREQS))
+            s.ctrl(i, W.cmd("CMD RXTUNE %d" % fixed[0])); s.ctrl(i, W.cmd("CMD TXTUNE %d" % fixed[1]))
+            cur = None                                    # (hsn, maio, [(rx, tx) kHz])
+            hist = []
+            for step in range(rng.range(2, 6)):
+                r = rng.below(10)
+                if r < 6 or cur is None:
+                    n = rng.choice([1, 2, 3, 4, 5, 8, 9, 16, 17, 33, 64]) if cur is None or rng.chance(1, 2) else len(cur[2])
+                    hsn, maio = (rng.choice([0, 1, 17, 63]), rng.below(8)) if cur is None or rng.chance(1, 2) else cur[:2]
+                    ma = [(rng.range(1, 1023) * 200 + 800000, rng.range(1, 1023) * 200 + 900000) for _ in range(n)]
+                    if rng.chance(1, 3):
+                        ma = sorted(ma, reverse=True)
+                    text = "CMD SETFH %d %d %s" % (hsn, maio, " ".join("%d %d" % p for p in ma))
+                    o, exc = s.ctrl(i, W.cmd(text))
+                    hist.append(text[:60])
+                    if exc is None and bytes(o[3:]).split(b" ")[2:3] == [b"0"]:
+                        cur = (hsn, maio, ma)
+                elif r < 8:
+                    text = "CMD SETFH %d 0 %d %d" % (rng.choice([64, -1, 100]), fixed[0], fixed[1])      # refused: the previous configuration stays
+                    s.ctrl(i, W.cmd(text)); hist.append(text)
+                else:
+                    s.ctrl(i, W.cmd("CMD POWERON")); s.ctrl(i, W.cmd("CMD POWEROFF")); hist.append("POWERON POWEROFF")
+                    cur = None
+                for fn in [0, 1, 1326 * 63 + 5, H - 1] + [rng.below(H) for _ in range(6)]:
+                    if cur is None:
+                        want = (fixed[0] * 1000, fixed[1] * 1000)
+                    else:
+                        pair = cur[2][spec_mai(cur[0], cur[1], len(cur[2]), fn)]
+                        want = (pair[0] * 1000, pair[1] * 1000)
+                    try:
+                        got = (t.get_rx_freq(fn), t.get_tx_freq(fn))
+                    except Exception as e:  # noqa
+                        got = type(e).__name__
+                    nq += 1
+                    if got != want:
+                        ctx.oracle_fail("a transceiver does not tune to MA[MAI] of the hopping configuration its last accepted SETFH carried (or to its fixed tuning after POWEROFF)",
+                                        dict(trx=i, fn=fn, commands=hist, current=None if cur is None else dict(hsn=cur[0], maio=cur[1], n=len(cur[2]))),
+                                        key="c07-transceiver-tuning", expected=want, observed=got)
+                        break
+            ctx.nontrivial(("trx-seq", len(hist), cur is None))
+        finally:
+            s.close()
+    ctx.evaluations += nq
+    ctx.extra["transceiver_tuning_queries"] = nq
     ctx.exhaustive = ctx.tier == "thorough"
     ctx.extra["rule"] = ("random (HSN, MAIO, N, FN, MA) biased to N around powers of two and FN on T1/T2/T3 carries; plus the complete reduced domain "
                          "(HSN xor T1R, T2, T3, N) on the C code (per MAIO) and on Python (complete in thorough, stride 37 in quick); "
